@@ -82,6 +82,7 @@ type Thread struct {
 	name      string
 	sendWait  *ChanObj
 	unwinding bool // a deferred model call yielded during panic unwinding
+	vc        vclock // happens-before clock (race oracle only)
 }
 
 type Observation struct {
@@ -111,6 +112,7 @@ type Config struct {
 	MapOrderAll bool
 	Sites       bool
 	NoIfConv    bool
+	Race        []string
 }
 
 type Interp struct {
@@ -162,6 +164,7 @@ type Interp struct {
 	nowPinned bool
 	loopBound int
 	ghostOn   bool
+	race      *raceState
 	known     []knownRegion
 	pool      []Value // sync.Pool model: per-pool stacks keyed by pool cell
 	pools     map[*Cell][]Value
@@ -260,6 +263,7 @@ func (in *Interp) resetPath(prefix []int) {
 	in.schedTrace = nil
 	in.selTrace = nil
 	in.hostRegexps = map[*Cell]*regexp.Regexp{}
+	in.raceReset()
 }
 
 func (in *Interp) assumeTerm(c *Term) {
@@ -561,6 +565,7 @@ func (in *Interp) concretize(t *Term, what string) int64 {
 
 func (in *Interp) newThread(name string) *Thread {
 	th := &Thread{id: len(in.threads), name: name}
+	in.raceFork(th)
 	in.threads = append(in.threads, th)
 	return th
 }
@@ -936,12 +941,16 @@ func (in *Interp) exec(th *Thread, f *Frame, instr ssa.Instruction) {
 			in.goPanic(th, "assignment to entry in nil map")
 			return
 		}
+		in.raceMap(m, true, f)
 		in.mapStore(m, in.get(f, x.Key), in.get(f, x.Value))
 		f.ip++
 	case *ssa.Next:
 		f.env[x] = in.execNext(f, x)
 		f.ip++
 	case *ssa.Range:
+		if m, ok := in.get(f, x.X).(*MapObj); ok {
+			in.raceMap(m, false, f)
+		}
 		f.env[x] = in.execRange(in.get(f, x.X))
 		f.ip++
 	case *ssa.Phi:
@@ -1349,10 +1358,12 @@ func (in *Interp) callSync(th *Thread, fnv FuncV, args []Value) Value {
 func (in *Interp) loadPtr(p Ptr, f *Frame) Value {
 	if p.c != nil {
 		in.ghostAccess(p.c, f)
+		in.raceCell(p.c, false, f)
 		return in.loadCell(p.c)
 	}
 	// symbolic index into array of scalars
 	in.ghostAccess(p.arr, f)
+	in.raceCell(p.arr, false, f)
 	n := len(p.arr.kids)
 	var res Value
 	for i := n - 1; i >= 0; i-- {
@@ -1380,10 +1391,12 @@ func (in *Interp) loadPtr(p Ptr, f *Frame) Value {
 func (in *Interp) storePtr(p Ptr, v Value, f *Frame) {
 	if p.c != nil {
 		in.ghostAccess(p.c, f)
+		in.raceCell(p.c, true, f)
 		in.storeCell(p.c, v)
 		return
 	}
 	in.ghostAccess(p.arr, f)
+	in.raceCell(p.arr, true, f)
 	for i, k := range p.arr.kids {
 		c := in.tb.Eq(p.idx, in.tb.Const(uint64(i), p.idx.w))
 		if c.op == OpFalse {
@@ -1704,6 +1717,7 @@ func (in *Interp) execLookup(th *Thread, f *Frame, x *ssa.Lookup) {
 		f.env[x] = v
 	case *MapObj:
 		vt := x.X.Type().Underlying().(*types.Map).Elem()
+		in.raceMap(b, false, f)
 		v, ok := in.mapLoad(b, in.get(f, x.Index), vt)
 		if x.CommaOk {
 			f.env[x] = TupleV{v, ok}
@@ -1760,6 +1774,9 @@ func permute(keys []Value, k int) []Value {
 func (in *Interp) execNext(f *Frame, x *ssa.Next) Value {
 	it := in.get(f, x.Iter).(*rangeIter)
 	tup := x.Type().(*types.Tuple)
+	if !it.isStr {
+		in.raceMap(it.m, false, f)
+	}
 	if it.isStr {
 		if it.pos >= len(it.str.b) {
 			return TupleV{in.tb.F, in.tb.Const(0, 64), in.tb.Const(0, 32)}
@@ -1907,6 +1924,7 @@ func (in *Interp) callBuiltin(th *Thread, f *Frame, b *ssa.Builtin, args []Value
 			if x == nil {
 				return in.tb.Const(0, 64), true
 			}
+			in.raceMap(x, false, f)
 			return in.tb.Const(uint64(len(x.ents)), 64), true
 		case *ChanObj:
 			if x == nil {
@@ -1944,6 +1962,7 @@ func (in *Interp) callBuiltin(th *Thread, f *Frame, b *ssa.Builtin, args []Value
 		switch y := args[1].(type) {
 		case SliceV:
 			for i := 0; i < y.len; i++ {
+				in.raceCell(y.arr.kids[y.off+i], false, f)
 				src = append(src, in.loadCell(y.arr.kids[y.off+i]))
 			}
 			if y.arr != nil {
@@ -1963,6 +1982,7 @@ func (in *Interp) callBuiltin(th *Thread, f *Frame, b *ssa.Builtin, args []Value
 		if need <= s.cap {
 			in.ghostAccess(s.arr, f)
 			for i, v := range src {
+				in.raceCell(s.arr.kids[s.off+s.len+i], true, f)
 				in.storeCell(s.arr.kids[s.off+s.len+i], v)
 			}
 			return SliceV{arr: s.arr, off: s.off, len: need, cap: s.cap}, true
@@ -1975,6 +1995,7 @@ func (in *Interp) callBuiltin(th *Thread, f *Frame, b *ssa.Builtin, args []Value
 		}
 		arr := in.newArrayCell(et, newcap, "append")
 		for i := 0; i < s.len; i++ {
+			in.raceCell(s.arr.kids[s.off+i], false, f)
 			in.storeCell(arr.kids[i], in.loadCell(s.arr.kids[s.off+i]))
 		}
 		if s.arr != nil {
@@ -1991,6 +2012,7 @@ func (in *Interp) callBuiltin(th *Thread, f *Frame, b *ssa.Builtin, args []Value
 		case SliceV:
 			n := min(d.len, y.len)
 			for i := 0; i < n; i++ {
+				in.raceCell(y.arr.kids[y.off+i], false, f)
 				src = append(src, in.loadCell(y.arr.kids[y.off+i]))
 			}
 			if y.arr != nil && n > 0 {
@@ -2006,12 +2028,14 @@ func (in *Interp) callBuiltin(th *Thread, f *Frame, b *ssa.Builtin, args []Value
 			in.ghostAccess(d.arr, f)
 		}
 		for i, v := range src {
+			in.raceCell(d.arr.kids[d.off+i], true, f)
 			in.storeCell(d.arr.kids[d.off+i], v)
 		}
 		return in.tb.Const(uint64(len(src)), 64), true
 	case "delete":
 		m := args[0].(*MapObj)
 		if m != nil {
+			in.raceMap(m, true, f)
 			in.mapDelete(m, args[1])
 		}
 		return nil, true
